@@ -35,7 +35,13 @@ def gen_ops(rng, tier):
                 for pos in (-1, -2, 0, 1, 63):
                     for tk in (0, 1, 2):
                         if not big and rng.random() < .5: continue
-                        ops.append("xcoef %d %d %d %d %d %d" % (prec, mode, val, pos, rng.choice([1, 3, 9]), tk))
+                        ops.append("xcoef %d %d %d %d %d %d" % (prec, mode, val, pos, rng.choice([1, 3, 9, 40, 100]), tk))
+    # blocks of the largest legal magnitude everywhere: the longest encoded blocks there are, enough of them to cross
+    # the destination buffer boundary so that the encoder's local buffer is used
+    for prec, val in ((8, 1023), (12, 16383)):
+        for mode in (0, 1):
+            for pos in (-1, -2):
+                ops.append("xcoef %d %d %d %d %d 0" % (prec, mode, val, pos, rng.choice([60, 100, 150])))
     return ops
 
 
